@@ -167,6 +167,10 @@ type Faults struct {
 	Cons  map[string][]int    `json:"cons"`  // key "<pass>": HTTP status codes for get-sth-consistency
 	// environment actions attached to the n-th fake call of a pass (key "<pass>:<n>", n from 1), executed before the call is served
 	Env map[string][]string `json:"env"` // "grow", "integrate", "revoke", "cancel"
+	// replay of specification behaviours: what GetRoot / get-sth of pass <pass> answered in the behaviour
+	RootAt map[string]int `json:"rootAt"`
+	SizeAt map[string]int `json:"sizeAt"`
+	Replay bool           `json:"replay"` // the environment acts only as scripted (no spontaneous growth / integration)
 }
 
 func (f *Faults) init() {
@@ -394,6 +398,9 @@ func (w *World) envLocked(a string) {
 func (w *World) RoundTrip(req *http.Request) (*http.Response, error) {
 	w.mu.Lock()
 	defer w.mu.Unlock()
+	if err := req.Context().Err(); err != nil {
+		return nil, err // a cancelled request never reaches the log
+	}
 	w.hook()
 	q := req.URL.Query()
 	code, body := 404, []byte("not found")
@@ -424,6 +431,11 @@ func (w *World) getSTH() (int, []byte) {
 	}
 	if w.sthSize >= 0 {
 		w.Rep.Violate("bounded:second-sth-in-pass", "the migrator asked the source for a second STH within one pass; entries beyond the STH it verified may be fetched", w.ctxt())
+	}
+	if want, ok := w.F.SizeAt[strconv.Itoa(w.pass)]; ok {
+		for w.srcSize < want && w.grown < w.C.Growth {
+			w.envLocked("grow")
+		}
 	}
 	n := w.srcSize
 	root := w.srcTree(n).Root(n)
@@ -530,6 +542,9 @@ func (b *Backend) GetLatestSignedLogRoot(ctx context.Context, in *trillian.GetLa
 	w := b.W
 	w.mu.Lock()
 	defer w.mu.Unlock()
+	if err := ctx.Err(); err != nil {
+		return nil, gstatus.FromContextError(err).Err() // a cancelled RPC never reaches the backend
+	}
 	// a new pass starts here
 	w.closePassLocked()
 	w.pass++
@@ -542,6 +557,11 @@ func (b *Backend) GetLatestSignedLogRoot(ctx context.Context, in *trillian.GetLa
 		w.rootSize = 0
 		w.emit(map[string]any{"ev": "GetRoot", "code": "ERR", "size": 0})
 		return nil, gstatus.Error(codeByName(c), "injected")
+	}
+	if want, ok := w.F.RootAt[strconv.Itoa(w.pass)]; ok {
+		for c := w.contiguous(); w.destInt < want && w.destInt < c; {
+			w.envLocked("integrate")
+		}
 	}
 	w.rootSize = w.destInt
 	w.rootHash = w.destRoot(w.destInt)
@@ -573,6 +593,9 @@ func (b *Backend) AddSequencedLeaves(ctx context.Context, in *trillian.AddSequen
 	w := b.W
 	w.mu.Lock()
 	defer w.mu.Unlock()
+	if err := ctx.Err(); err != nil {
+		return nil, gstatus.FromContextError(err).Err()
+	}
 	w.hook()
 	start, n := int64(-1), len(in.Leaves)
 	if n > 0 {
